@@ -105,6 +105,27 @@ theorem fitting_header_accepted_on_stream (cfg : DecodeCfg) (fb last : UInt8) (c
   simp only [feed, h2]
   simp [d1]
 
+/-- **Every conformant header.**  Whatever packet type and flags, a Remaining Length `rl` written as the standard
+    prescribes and announcing `1 + prefix + rl` bytes above the maximum in force fails a fresh decoder at the last prefix
+    byte, with no packet surfaced, whatever follows and (by `chunk_invariant`) wherever the reads end. -/
+theorem conformant_oversize_header_rejected (cfg : DecodeCfg) (fb : UInt8) (rl : Nat) (rest : Bytes) (h : rl ≤ maxVli)
+    (hbig : cfg.limit < rl + 1 + (Spec.encVbi rl).length) :
+    (feed cfg {} (fb :: (Spec.encVbi rl ++ rest))).err = some .decodingFailure ∧
+    (feed cfg {} (fb :: (Spec.encVbi rl ++ rest))).packets = [] := by
+  obtain ⟨c, last, he, hc, hl⟩ := encVbi_split rl
+  have hv := decodeVli_encVbi rl [] h
+  rw [he] at hv hbig
+  simp only [List.append_nil] at hv
+  have := oversize_rejected_on_stream cfg fb last c rest rl [] hc hl hv (by simpa using hbig)
+  rw [he]
+  simp only [List.append_assoc, List.singleton_append]
+  exact ⟨this.1, this.2.1⟩
+
+/-- the same for every way of cutting that stream into reads -/
+theorem conformant_oversize_any_chunking (cfg : DecodeCfg) (fb : UInt8) (rl : Nat) (rest : Bytes) (chunks : List Bytes)
+    (h : rl ≤ maxVli) (hbig : cfg.limit < rl + 1 + (Spec.encVbi rl).length) (hch : chunks.flatten = fb :: (Spec.encVbi rl ++ rest)) :
+    (feedChunksB cfg {} chunks).err = some .decodingFailure ∧ (feedChunksB cfg {} chunks).packets = [] := by
+  rw [chunk_invariant, hch]; exact conformant_oversize_header_rejected cfg fb rl rest h hbig
 /-- non-vacuity: the prefix `C8 01` (Remaining Length 200) meets the hypotheses -/
 example : AllCont [0xC8] ∧ decodeVli ([0xC8] ++ [0x01]) = .value 200 [] := by
   refine ⟨?_, by decide⟩
